@@ -769,7 +769,7 @@ Definition ctor_default_pairs : list (string * (nat * nat) * (nat * nat)) := [].
 def generate():
     try:
         return emit(translate())
-    except Unsupported as u:
+    except (Unsupported, ValueError, TypeError, IndexError, KeyError, AttributeError, AssertionError, RecursionError) as u:   # any surprise in the source = fail closed
         return failed("LossGen", str(u)) + FALLBACK
     except (SyntaxError, OSError) as u:
         return failed("LossGen", "cannot read source: %r" % (u,)) + FALLBACK
